@@ -30,6 +30,10 @@ var repeatCounts = func() []int {
 	return ks
 }()
 
+// nbtStreamPackets: see repeatedSeeds (4 MiB of input; both tiers - the unchanged transport refuses the
+// first packet, one that skips them spends a few milliseconds).
+const nbtStreamPackets = 1 << 20
+
 type repSeed struct {
 	Entry string
 	What  string // which element is repeated
@@ -154,6 +158,11 @@ func repeatedSeeds() []repSeed {
 		// NBT: k empty / small session messages in one stream
 		add("nbt.NBTTransport.Receive", "frames", k, bytes.Repeat(frame([]byte("x")), k))
 		add("nbt.NBTTransport.Receive", "empty-frames", k, bytes.Repeat(frame(nil), k))
+		// NBT: k packets of each other type (a receiver may skip them), bare and followed by a message
+		for _, t := range nbtCodes {
+			add("nbt.NBTTransport.Receive", fmt.Sprintf("packets-type-%#x", t), k, bytes.Repeat([]byte{t, 0, 0, 0}, k))
+			add("nbt.NBTTransport.Receive", fmt.Sprintf("packets-type-%#x-then-message", t), k, cat(bytes.Repeat([]byte{t, 0, 0, 0}, k), frame([]byte("x"))))
+		}
 		// NTLM: k AV pairs, alone and inside a CHALLENGE_MESSAGE (TargetInfoLen is 16 bits: 6 bytes a pair)
 		pairs := make([]nlmp.AvPair, k)
 		for i := range pairs {
@@ -207,6 +216,21 @@ func repeatedSeeds() []repSeed {
 		add("gppp.GPPPDecryptBase64", "blocks", k, []byte(strings.Repeat("j1Uyj3Vx8TY9LtLZil2uAg==", k)))
 		add("gppp.GPPPDecryptBytes", "blocks", k, bytes.Repeat([]byte{0x41}, 16*k))
 		add("pkcs7.Unpad", "blocks", k, bytes.Repeat([]byte{16}, 16*k))
+		// GPP: long plaintexts (encrypted by the entry point): k code units, k NULs, k surrogates, k BOMs
+		for _, pt := range []struct {
+			what string
+			unit []byte
+		}{{"utf16-units", []byte{'a', 0}}, {"nul-units", []byte{0, 0}}, {"lone-surrogates", []byte{0x3d, 0xd8}}, {"surrogate-pairs", []byte{0x3d, 0xd8, 0x00, 0xde}}, {"boms", []byte{0xff, 0xfe}}} {
+			add("gppp.GPPPDecryptBytes@plaintext", pt.what, k, bytes.Repeat(pt.unit, k))
+			add("gppp.GPPPDecryptBase64@plaintext", pt.what, k, bytes.Repeat(pt.unit, k))
+		}
+	}
+	// NBT: a peer that streams packets the receiver skips (keep-alives, RFC 1002 4.3.5) must cost the
+	// receiver neither stack nor memory per packet: nbtStreamPackets of each type in one stream, deep
+	// enough that a Receive which skips by calling itself runs out of the 64 MB stack limit the harness
+	// sets (a few dozen bytes of stack per call would already do)
+	for _, t := range nbtCodes {
+		out = append(out, repSeed{Entry: "nbt.NBTTransport.Receive", What: fmt.Sprintf("stream-of-packets-type-%#x", t), K: nbtStreamPackets, B: bytes.Repeat([]byte{t, 0, 0, 0}, nbtStreamPackets), Light: true})
 	}
 	// generic: for every entry point, the first seeds as a whole and their last 1/2/4/8 bytes k times
 	for i := range entryList {
